@@ -78,7 +78,10 @@ ObsHash(ev, p, h) ==
   /\ IF ~Has(ev, "hash") \/ ~Has(ev, "khash") THEN TRUE ELSE
        LET n == Len(h) IN
        \A i \in 1..(n - 1) :
-          Expect((h[i].k = h[n].k) = (h[i].h = h[n].h), ev, "C04/key-hash-consistency",
+          \* C04 speaks about positions reached by move orders: a ROOT that was loaded with an en-passant target nobody
+          \* can capture (the engine hashes the file, F4) was not reached by a move; that comparison is a note only
+          Expect((h[i].k = h[n].k) = (h[i].h = h[n].h), ev,
+                 IF rootBad /\ i = 1 THEN "X/root-with-a-dead-target-is-hashed-with-it" ELSE "C04/key-hash-consistency",
                  IF rootBad /\ i = 1 THEN "hash/root-ep-not-capturable" ELSE "", [i |-> i, n |-> n])
 
 Obs(ev, p, h) == ObsLegal(ev, p) /\ ObsPseudo(ev, p) /\ ObsStatus(ev, p) /\ ObsRep(ev, p, h) /\ ObsHash(ev, p, h)
